@@ -2,6 +2,7 @@ import GBModel.Assemble
 import GBModel.Eval
 import GBModel.OneElec
 import GBModel.TwoElec
+import GBModel.Forms
 /-!
 # Line protocol of the model executable
 
@@ -149,6 +150,21 @@ def handle : P String := do
     let b4 ← basisTok
     pure (fmt [b1.total, b2.total, b3.total, b4.total]
       (assemble4g b1 b2 b3 b4 fun i j k l => eriBlock boysBM b1[i]! b2[j]! b3[k]! b4[l]!))
+  | "form" => do   -- name, #rationals, rationals (num/den), #naturals, naturals
+    let name ← tok
+    let nq ← natTok
+    let qs ← rep nq (do
+      let t ← tok
+      match t.splitOn "/" with
+      | [a, b] => match a.toInt?, b.toNat? with
+        | some a, some b => pure ((a : Rat) / (b : Rat))
+        | _, _ => throw "bad rational"
+      | _ => throw "bad rational")
+    let nn ← natTok
+    let ns ← rep nn natTok
+    match formOf name qs.toList ns.toList with
+    | some f => pure ("ok " ++ f.canon.toStr)
+    | none => pure "err unknown-form"
   | "boys" => do   -- T, mMax
     let t ← bfTok
     let mm ← natTok
